@@ -71,8 +71,8 @@ type closeEffect struct {
 	FreeVar int // index, -1 if none
 	Param   int // index, -1 if none
 	OnError bool
-	Loop    bool            // closes the elements of a slice
-	LoopFn  *ssa.Function   // function holding the loop
+	Loop    bool          // closes the elements of a slice
+	LoopFn  *ssa.Function // function holding the loop
 	Call    ssa.CallInstruction
 }
 
